@@ -1,0 +1,64 @@
+//go:build verif
+
+package poll
+
+import (
+	"github.com/prometheus/client_golang/prometheus"
+	"github.com/resonatehq/resonate/internal/aio"
+)
+
+// Verification hook (build tag `verif`): a single-goroutine driver of the connection registry and of
+// PollWorker.Process, so that a harness can replay connect / disconnect / send sequences
+// deterministically. Adds no behaviour to the plugin.
+
+type VerifConn struct {
+	c *connection
+}
+
+type VerifPoll struct {
+	w *PollWorker
+}
+
+func NewVerifPoll(max int) *VerifPoll {
+	return &VerifPoll{w: &PollWorker{
+		connections: connections{
+			max:   max,
+			cnt:   prometheus.NewGauge(prometheus.GaugeOpts{Name: "verif_poll_connections"}),
+			conns: map[string][]*connection{},
+		},
+	}}
+}
+
+func (v *VerifPoll) NewConn(group string, id string, buffer int) *VerifConn {
+	return &VerifConn{c: &connection{group: group, id: id, ch: make(chan []byte, buffer)}}
+}
+
+func (v *VerifPoll) Connect(c *VerifConn)    { v.w.connections.add(c.c) }
+func (v *VerifPoll) Disconnect(c *VerifConn) { v.w.connections.rmv(c.c, true) }
+func (v *VerifPoll) Process(m *aio.Message)  { v.w.Process(m) }
+func (v *VerifPoll) Len() int                { return v.w.connections.len }
+
+// Registered reports whether exactly this connection object is registered.
+func (v *VerifPoll) Registered(c *VerifConn) bool {
+	for _, x := range v.w.connections.conns[c.c.group] {
+		if x == c.c {
+			return true
+		}
+	}
+	return false
+}
+
+// Drain returns the bodies buffered on the connection and whether its channel has been closed.
+func (c *VerifConn) Drain() (bodies [][]byte, closed bool) {
+	for {
+		select {
+		case b, ok := <-c.c.ch:
+			if !ok {
+				return bodies, true
+			}
+			bodies = append(bodies, b)
+		default:
+			return bodies, false
+		}
+	}
+}
